@@ -144,7 +144,10 @@ Definition on_publish (br : broker) (m : pubmsg) : broker * list out :=
   let '(br1, m1) := if pub_retain m then retain_msg br m else (br, m) in
   match t_subscribers (br_store br1) (p_topic m1) (pub_qos m1) with
   | None => (br1, [])
-  | Some subs => let '(br2, _, o) := fan_out br1 m1 subs in (br2, o)
+  | Some subs =>
+      (* the retain flag is cleared around the loop (MQTT-3.3.1-9) *)
+      let m2 := if pub_retain m1 then pub_set_retain m1 false else m1 in
+      let '(br2, _, o) := fan_out br1 m2 subs in (br2, o)
   end.
 
 (* ---------- the receiving side of QoS 2: processAcked(Pub2in) ---------- *)
